@@ -61,6 +61,9 @@ def run(ctx):
     with ctx.obligation('C17.HRANGE', 'Bip32Path.convert_hardened', None, fconv.where) as ob:
         for cs, x in [(cs, x) for cs, x in leaves(conv) if T.tag(x) != 'raise' and T.contains(x, lambda y: y == n)]:
             lo, hi = bounds_of(n, known_at(f, cs))
+            ob.require(lo == 0 and hi == 2 ** 31 - 1 if (lo is not None and lo >= 0 and hi is not None and hi <= 2 ** 31 - 1) else True,
+                       'a hardened-marked number inside [0, 2^31) is refused: the accepted range on this path is [%s, %s]' % (lo, hi),
+                       fconv.where, expected='[0, 2147483647]')
             ob.require(lo is not None and lo >= 0 and hi is not None and hi <= 2 ** 31 - 1,
                        'a hardened-marked number outside [0, 2^31) is not rejected: it is shifted by 2^31 and becomes some '
                        'other index (e.g. "-1\'" -> 2147483647, a non-hardened index)', fconv.where,
@@ -139,6 +142,36 @@ def run(ctx):
             back, f3 = ev.call_function('wallet_utils.Bip32Path.convert_hardened', [r], facts=f2)
             same_term(ob, _strip_raise(T.assume(back, known_at(f3, ()))), num,
                       'convert_hardened(repr_hardened(n)) == n for n in [%d, %d]' % (lo, hi), frepr.where)
+    fprepr = p.get_function('wallet_utils.Bip32Path.__repr__')
+    with ctx.obligation('C17.PATHREPR', 'Bip32Path.__repr__ / parse', None, fprepr.where) as ob:
+        names = ['purpose', 'coin_type', 'account', 'chain', 'addr_index']
+        for private in (True, False):
+            mark = 'm' if private else 'M'
+            for k in range(0, 6):
+                for hardened_mask in ((0,) * k, (1,) * k, tuple(i % 2 for i in range(k))):
+                    vals, facts = [], Facts()
+                    for j in range(5):
+                        if j < k:
+                            x = S('n%d' % j, type='int')
+                            lo, hi = (2 ** 31, 2 ** 32 - 1) if hardened_mask[j] else (0, 2 ** 31 - 1)
+                            facts = facts.add(T.not_(T.lt(x, T.const(lo)))).add(T.lt(x, T.const(hi + 1)))
+                            vals.append(x)
+                        else:
+                            vals.append(T.NONE)
+                    pth = T.obj(BP, dict(zip(names, vals), private=T.const(private)))
+                    r, f2 = ev.call_function('wallet_utils.Bip32Path.__repr__', [pth], facts=facts)
+                    parts = [T.const(mark)]
+                    for j in range(k):
+                        parts.append(T.const('/'))
+                        parts.append(T.cat(T.raw_op('STR', T.sub(vals[j], H)), T.const("'")) if hardened_mask[j] else T.raw_op('STR', vals[j]))
+                    same_term(ob, r, T.cat(*parts), 'text of a %d-level %s path (hardened pattern %s)' % (k, mark, hardened_mask), fprepr.where)
+                    back, f3 = ev.call_function('wallet_utils.Bip32Path.parse', [T.clsref(BP), r], facts=f2)
+                    nl = distinct_normal_leaves(back)
+                    ob.require(len(nl) == 1 and all(T.tag(x) != 'raise' for x in distinct_leaves(back)),
+                               'parse(str(path)) must not refuse a well-formed %d-level path (hardened pattern %s)' % (k, hardened_mask),
+                               fprepr.where, found=T.show(back, maxdepth=3))
+                    if len(nl) == 1:
+                        same_term(ob, T.assume(nl[0], known_at(f3, ())), pth, 'parse(str(path)) == path', fprepr.where)
     fnrepr = p.get_function('bip32.PubKeyNode.__repr__')
     with ctx.obligation('C17.NODEREPR', 'PubKeyNode.__repr__', None, fnrepr.where) as ob:
         for cls, mark in ((PRV, 'm'), (PUB, 'M')):
